@@ -173,7 +173,12 @@ def hist_laws(cx, line, reply):
 
 
 # ---------------------------------------------------------------------------------------------- dictionary histories
-def gen_dict(rng, nops, balanced):
+def f50_fixed(cx):
+    """dict.c with fixes/F50.diff: the model variant `dictf` mirrors the repaired dict_insert (DESIGN §2.7: a `fixed` finding suppresses nothing)"""
+    return cx.findings.get("F50", {}).get("status") == "fixed" or "F50" in os.environ.get("VERIF_ASSUME_FIXED", "").split(",")
+
+
+def gen_dict(rng, nops, balanced, fixed=False):
     size = rng.choice([8, 8, 8, 16, 32, 1024])
     mask = rng.choice([0xFFFFFFFF, 0xFFFFFFFF, 0xFFFFFFFF, 0xFF, 0x7, 0x3, 0x1, 0])
     nstr = rng.choice([3, 8, 30, 200, 1200 if size == 1024 else 100])
@@ -188,7 +193,7 @@ def gen_dict(rng, nops, balanced):
 
     def prefix_ok(v, ln):
         # the F50 corner needs H(prefix) == H(whole): keep it out of the general stream (it has its own witnesses)
-        return ln == 0 or ln == len(v) or (jenkins(v[:ln]) & mask) != (jenkins(v) & mask)
+        return fixed or ln == 0 or ln == len(v) or (jenkins(v[:ln]) & mask) != (jenkins(v) & mask)
 
     up = True
     for k in range(nops):
@@ -238,7 +243,7 @@ def gen_dict(rng, nops, balanced):
         rng.shuffle(rest)
         ops += ["r.%s" % hexs(s) for s in rest]
     ops.append("D")
-    return "dict %d %d %s" % (size, mask, ",".join(ops)), balanced
+    return "%s %d %d %s" % ("dictf" if fixed else "dict", size, mask, ",".join(ops)), balanced
 
 
 def exhaustive_dict(maxlen):
@@ -266,6 +271,10 @@ F50_WITNESSES = [
     "dict 8 0 i.616258.0.0,i.63.0.0,i.64.0.0,i.65.0.0,i.66.0.0,D,i.616258.2.0,D",
     # (B) same, the caller passes the dictionary's own pointer of "abX": the record of "abX" is overwritten by "ab", "abX" leaks
     "dict 8 0 i.616258.0.0,i.63.0.0,i.64.0.0,i.65.0.0,i.66.0.0,D,i.616258.2.1,D",
+    # (A) with the REAL hash and the real initial size: lyht_hash("ab") == lyht_hash("abiemahzf") == 1172708952; "abiemahzf" is
+    #     held, 766 more strings, then lydict_insert(ctx, "abiemahzf", 2) is the 768th record of 1024 (75 %) -> LY_ENOTFOUND
+    "dict 1024 4294967295 " + ",".join(["i.%s.0.0" % hexs(b"abiemahzf")] + ["i.%s.0.0" % hexs(b"f%d" % i) for i in range(766)]
+                                       + ["D", "i.%s.2.0" % hexs(b"abiemahzf"), "D"]),
 ]
 
 
@@ -354,11 +363,13 @@ def run_ht(cx):
     for n in list(range(0, 70)) + [2 ** k + d for k in range(6, 32) for d in (-1, 0, 1)] + [NO, NO - 1]:
         cases.append("fixed %d" % (n & 0xFFFFFFFF))
     dict_cases = []
+    fixed = f50_fixed(cx)
+    dop = "dictf " if fixed else "dict "
     for l in exhaustive_dict(cx.n(3, 4)):
-        dict_cases.append((l, False))
-    dict_cases += list(dict_walks())
+        dict_cases.append((l.replace("dict ", dop, 1), False))
+    dict_cases += [(l.replace("dict ", dop, 1), b) for l, b in dict_walks()]
     for _ in range(cx.n(500, 8000)):
-        dict_cases.append(gen_dict(rng, rng.choice([6, 25, 80, 200, 600]), rng.random() < 0.7))
+        dict_cases.append(gen_dict(rng, rng.choice([6, 25, 80, 200, 600]), rng.random() < 0.7, fixed))
     cases = list(dict.fromkeys(cases))
     dseen, dc = set(), []
     for l, b in dict_cases:
@@ -395,8 +406,10 @@ def run_ht(cx):
                 cx.fail("dict", "balanced history does not end with the empty dictionary", {"line": l[:3000], "last": last[:500]})
     cx.dist["ht:ops-total"] += nops
     # the known corner F50 (hash as a parameter: every collision is possible) — witnesses evaluated on the implementation
-    wl = ["%d ht %s" % (i, w) for i, w in enumerate(F50_WITNESSES)]
-    rw = cx.run_impl(HARNESS, wl, component="dict", crash_is_failure=False)     # (B) leaks by nature: LSan also complains at exit
+    wl = ["%d ht %s" % (i, w.replace("dict ", dop, 1)) for i, w in enumerate(F50_WITNESSES)]
+    rw = {}
+    for l in wl:        # one process each: (B) leaks by nature, LSan reports it again at every later check and at exit
+        rw.update(cx.run_impl(HARNESS, [l], component="dict", crash_is_failure=False))
     rmw = cx.run_model(wl)
     for l in wl:
         i = l.split()[0]
@@ -405,3 +418,5 @@ def run_ht(cx):
         if [x for x in a if x != "LEAK"] != b:
             cx.disagree("ht", l, a, b)
         dict_laws(cx, l, a, False)
+    if fixed:
+        cx.notes.append("F50 is marked fixed: dictionary histories run against the repaired model variant (dictf), prefix collisions included")
